@@ -27,7 +27,7 @@ Faults ==    {[f |-> "drop", key |-> k, as |-> ""] : k \in AllKeys}
         \cup {[f |-> "dup", key |-> k, as |-> ""] : k \in {"mappings", "sources", "version"}}
         \cup {[f |-> "len", key |-> k, as |-> d] : k \in {"sourcesContent", "x_facebook_sources", "ignoreList", "names", "sources"}, d \in {"short", "long", "empty"}}
         \cup {[f |-> "num", key |-> k, as |-> v] : k \in {"offset.line", "offset.column", "ignoreList", "version"}, v \in {"0", "2^31", "2^32-1", "2^32", "-1"}}
-        \cup {[f |-> "vlq", key |-> k, as |-> v] : k \in {"dst_col", "src_id", "src_line", "src_col", "name_id"}, v \in {"7digits", "13digits", "neg", "2^32"}}
+        \cup {[f |-> "vlq", key |-> k, as |-> v] : k \in {"dst_col", "src_id", "src_line", "src_col", "name_id"}, v \in {"7digits", "13digits", "neg", "2^32", "13ones", "13top"}}
         \cup {[f |-> "nest", key |-> "sections", as |-> d] : d \in {"1", "8", "200"}}
         \cup {[f |-> "hermes", key |-> "x_facebook_sources", as |-> v] : v \in {"badvlq", "bigname", "nometa", "extra", "neg", "sparse"}}
 
